@@ -851,6 +851,39 @@ func ruleListCover(p *Prog, r *Result) {
 			}
 		}
 		r.add(len(missing) == 0, "list|element-kinds", p.Pos(row.Body.Pos()), fmt.Sprintf("list() builds lists of the documented element types int, float and str; it can return %v, missing %v", keysOf(k), missing))
+		// ... and the kind is a property of all the elements: the conversions to int and float silently turn a text
+		// that is not a number into 0, so the evaluation whose dynamic type decides which list is built is made for
+		// every argument (an index that varies in a loop), not for args[0] only
+		fixedIdx, nDecide := "", 0
+		allInstrs(row.Body, func(in ssa.Instruction) {
+			ta, ok := in.(*ssa.TypeAssert)
+			if !ok || !ta.CommaOk {
+				return
+			}
+			ex, ok := ta.X.(*ssa.Extract)
+			if !ok {
+				return
+			}
+			c, ok := ex.Tuple.(*ssa.Call)
+			if !ok || !c.Call.IsInvoke() || c.Call.Method.Name() != "Execute" {
+				return
+			}
+			u, ok := c.Call.Value.(*ssa.UnOp)
+			if !ok {
+				return
+			}
+			ia, ok := u.X.(*ssa.IndexAddr)
+			if !ok {
+				return
+			}
+			nDecide++
+			if _, isConst := ia.Index.(*ssa.Const); isConst {
+				fixedIdx = p.InstrPos(c)
+			}
+		})
+		if nDecide > 0 {
+			r.add(fixedIdx == "", "list|kind-from-all", p.Pos(row.Body.Pos()), firstNonEmpty(map[bool]string{true: "the element kind is decided from one fixed argument (evaluated at " + fixedIdx + "): a later text that is not a number silently becomes 0"}[fixedIdx != ""], "the element kind is decided from every argument"))
+		}
 	}
 	// len(): the function reached from the len bodies that type-switches on its parameter
 	for _, body := range []*ssa.Function{lenBody, lenVec} {
@@ -940,7 +973,7 @@ func ruleListCover(p *Prog, r *Result) {
 					if sl, ok := f.Signature.Results().At(0).Type().Underlying().(*types.Slice); ok && sl.Elem().String() == "float64" {
 						seenConv[f] = true
 						have := switchCases(f, func(v ssa.Value) bool { return v == ssa.Value(f.Params[0]) })
-						requireCases("vector|"+p.FName(f), p.Pos(f.Pos()), have, producers, "vector conversion of the distance functions")
+						requireCases("vector|"+p.FName(f), p.Pos(f.Pos()), have, withJSON, "vector conversion of the distance functions (the README compares with an embedding stored as a JSON array)")
 					}
 				}
 			}
